@@ -73,47 +73,83 @@ theorem C15_contraction_close {E : Type} [PseudoMetricSpace E] (step : E → E) 
   rw [hr, iter_succ'] at *
   exact close_of_small_step step xs (iter step m y0) c tol hc0 hc1 hcontr hs
 
-/-- FAILURE PROPAGATES: when the loop finds no steady state, `simulate_to_steady_state().get_result()` of a
-fresh simulator is the error `NoSteadyState` (never a state), and the scan row is the NaN default. -/
-theorem C15_failure_propagates (step : σ → σ) (small : σ → σ → Bool) (y0 : σ)
-    (h : ssRun Gen.copies step small Gen.maxSteps y0 = .noSteadyState) :
-    let sim := simulateToSteadyState Gen.stepSize (Sim.fresh : Sim σ)
-      (fun _ => ssRun Gen.copies step small Gen.maxSteps y0)
-    getResult sim = .error .noSteadyState ∧ workerRow (getResult sim) = none := by
-  simp [simulateToSteadyState, Sim.fresh, h, handleResult, getResult, workerRow]
+/-- generated-table obligation: the search starts at the integrator's CURRENT (t0, y0) and advances it on success
+(no `self.reset()`); what the theorems below call "the state the simulator holds" -/
+theorem C15_search_continues : Gen.continues = true := rfl
 
-/-- ... also on a simulator that ALREADY HOLDS RESULTS of earlier successful calls (`simulate`, a time course):
-a later steady-state search that fails turns `get_result()` into the error; the stored rows are never presented
-as the outcome. -/
-theorem C15_failure_after_results (step : σ → σ) (small : σ → σ → Bool) (y0 : σ)
-    (rows : Option (List (Nat × σ)))
-    (h : ssRun Gen.copies step small Gen.maxSteps y0 = .noSteadyState) :
-    let sim := simulateToSteadyState Gen.stepSize (⟨[], rows⟩ : Sim σ)
-      (fun _ => ssRun Gen.copies step small Gen.maxSteps y0)
-    getResult sim = .error .noSteadyState ∧ workerRow (getResult sim) = none := by
-  simp [simulateToSteadyState, h, handleResult, getResult, workerRow]
+/-- the library's `simulate_to_steady_state` with the facts read from the source -/
+abbrev simSS (step : σ → σ) (small : σ → σ → Bool) (s : Sim σ) : Sim σ :=
+  simulateToSteadyState Gen.continues Gen.copies step small Gen.maxSteps Gen.stepSize s
 
-/-- ... and a success is appended after the stored rows -/
-theorem C15_success_after_results (step : σ → σ) (small : σ → σ → Bool) (y0 : σ) (n : Nat) (r : σ)
-    (rows : List (Nat × σ))
-    (h : ssRun Gen.copies step small Gen.maxSteps y0 = .steady n r) :
-    getResult (simulateToSteadyState Gen.stepSize (⟨[], some rows⟩ : Sim σ)
-      (fun _ => ssRun Gen.copies step small Gen.maxSteps y0)) = .ok (rows ++ [(n * Gen.stepSize, r)]) := by
-  simp [simulateToSteadyState, h, handleResult, getResult]
+/-- FAILURE PROPAGATES: when the loop finds no steady state from the state the simulator holds,
+`simulate_to_steady_state().get_result()` is the error `NoSteadyState` (never a state) and the scan row is the NaN
+default — on a fresh simulator and on one that ALREADY HOLDS RESULTS of earlier successful calls (`rows`), after an
+override (`shift`), wherever the integrator stands (`g`); the stored rows are never presented as the outcome, and
+the integrator is left where it was. -/
+theorem C15_failure_propagates (step : σ → σ) (small : σ → σ → Bool) (rows : Option (List (Rat × σ)))
+    (shift : Option Rat) (g : Integ σ)
+    (h : ssRun Gen.copies step small Gen.maxSteps g.y0 = .noSteadyState) :
+    let sim := simSS step small ⟨[], rows, shift, g⟩
+    getResult sim = .error .noSteadyState ∧ workerRow (getResult sim) = none ∧ sim.integ = g := by
+  simp [simSS, simulateToSteadyState, integrateToSteadyState, C15_search_continues, h, handleResult, getResult,
+    workerRow]
 
-/-- ... and success propagates unchanged: one row, time `n * step_size`, the loop's state. -/
+/-- kept under its old name: the same on a simulator that already holds results -/
+theorem C15_failure_after_results (step : σ → σ) (small : σ → σ → Bool) (rows : List (Rat × σ))
+    (shift : Option Rat) (g : Integ σ)
+    (h : ssRun Gen.copies step small Gen.maxSteps g.y0 = .noSteadyState) :
+    getResult (simSS step small ⟨[], some rows, shift, g⟩) = .error .noSteadyState :=
+  (C15_failure_propagates step small (some rows) shift g h).1
+
+/-- SUCCESS PROPAGATES, IN ABSOLUTE TIME: when the loop succeeds at step `n` from the state the simulator holds, exactly
+one row is appended after the stored ones, at time `t0 + n·step_size` (+ the override shift) with the loop's state; the
+scan row is that state; and the integrator moves to (`t0 + n·step_size`, that state), so whatever is simulated next
+continues from there. -/
+theorem C15_success_after_results (step : σ → σ) (small : σ → σ → Bool) (n : Nat) (r : σ)
+    (rows : List (Rat × σ)) (shift : Option Rat) (g : Integ σ)
+    (h : ssRun Gen.copies step small Gen.maxSteps g.y0 = .steady n r) :
+    let sim := simSS step small ⟨[], some rows, shift, g⟩
+    let t := g.t0 + (n : Rat) * (Gen.stepSize : Rat)
+    getResult sim = .ok (rows ++ [(t + shift.getD 0, r)]) ∧ workerRow (getResult sim) = some r ∧
+      sim.integ = { g with t0 := t, y0 := r } := by
+  cases shift <;>
+    simp [simSS, simulateToSteadyState, integrateToSteadyState, C15_search_continues, h, handleResult, getResult,
+      workerRow]
+
+/-- ... on a fresh simulator: one row, time `n * step_size`, the loop's state. -/
 theorem C15_success_propagates (step : σ → σ) (small : σ → σ → Bool) (y0 : σ) (n : Nat) (r : σ)
     (h : ssRun Gen.copies step small Gen.maxSteps y0 = .steady n r) :
-    let sim := simulateToSteadyState Gen.stepSize (Sim.fresh : Sim σ)
-      (fun _ => ssRun Gen.copies step small Gen.maxSteps y0)
-    getResult sim = .ok [(n * Gen.stepSize, r)] ∧ workerRow (getResult sim) = some r := by
-  simp [simulateToSteadyState, Sim.fresh, h, handleResult, getResult, workerRow]
+    let sim := simSS step small (Sim.fresh y0)
+    getResult sim = .ok [((n : Rat) * (Gen.stepSize : Rat), r)] ∧ workerRow (getResult sim) = some r := by
+  simp [simSS, Sim.fresh, simulateToSteadyState, integrateToSteadyState, C15_search_continues, h, handleResult,
+    getResult, workerRow]
+
+/-- THE REPORTED TIME IS LATER THAN THE START: a success is reported at least one `step_size` after the time the
+integrator stood at, so after a time course that ended there the steady-state row comes strictly later. -/
+theorem C15_success_time_later (step : σ → σ) (small : σ → σ → Bool) (g : Integ σ) (t : Rat) (y : σ) (g' : Integ σ)
+    (h : integrateToSteadyState Gen.continues Gen.copies step small Gen.maxSteps Gen.stepSize g
+          = (.timeCourse t y, g')) :
+    g.t0 + (Gen.stepSize : Rat) ≤ t ∧ g'.t0 = t ∧ g'.y0 = y := by
+  simp only [integrateToSteadyState, C15_search_continues, if_true] at h
+  cases hr : ssRun Gen.copies step small Gen.maxSteps g.y0 with
+  | noSteadyState => simp [hr] at h
+  | steady n r =>
+    simp only [hr] at h
+    obtain ⟨h1, _⟩ := C15_success_is_small_step step small g.y0 n r hr
+    injection h with ha hb
+    injection ha with ht hy
+    subst hb
+    refine ⟨?_, ht, hy⟩
+    rw [← ht]
+    have : (1 : Rat) ≤ (n : Rat) := by exact_mod_cast h1
+    have hs : (0 : Rat) ≤ (Gen.stepSize : Rat) := by exact_mod_cast Nat.zero_le _
+    nlinarith
 
 /-- an earlier error is never overwritten by a later steady state -/
 theorem C15_error_sticks (s : Sim σ) (e : SimErr) (es : List SimErr) (hs : s.errors = e :: es)
-    (integ : Unit → Outcome σ) :
-    getResult (simulateToSteadyState Gen.stepSize s integ) = .error e := by
-  simp [simulateToSteadyState, hs, getResult]
+    (step : σ → σ) (small : σ → σ → Bool) :
+    getResult (simSS step small s) = .error e ∧ simSS step small s = s := by
+  simp [simSS, simulateToSteadyState, hs, getResult]
 
 /-- the pinned tree's loop (`y1 = y2`, an alias of the integrator's buffer) reports success at the SECOND
 step whatever the dynamics: every later comparison is of the buffer with itself.  (Kept as the reason
